@@ -6,6 +6,7 @@ import (
 	"testing"
 
 	"github.com/syndtr/goleveldb/leveldb/comparer"
+	"github.com/syndtr/goleveldb/leveldb/filter"
 	"github.com/syndtr/goleveldb/leveldb/opt"
 	"github.com/syndtr/goleveldb/leveldb/storage"
 	"github.com/syndtr/goleveldb/leveldb/table"
@@ -141,5 +142,83 @@ func TestFlippedByteIsReportedOnEveryLookupPath(t *testing.T) {
 			}
 			tr.Release()
 		}
+	}
+}
+
+// obligation table.(*filterWriter).finish:post(trailer-carries-the-partition-width-the-writer-used)
+// A table written with a bloom filter and a non-default filter base (one
+// filter per 2^FilterBaseLg bytes of table offset) must still answer exact,
+// filtered lookups for every pair that was written.
+func TestFilteredLookupFindsEveryKeyWhateverTheFilterBase(t *testing.T) {
+	for _, baseLg := range []int{0 /* default */, 8, 9} {
+		baseLg := baseLg
+		t.Run(fmt.Sprintf("FilterBaseLg=%d", baseLg), func(t *testing.T) {
+			o := &opt.Options{
+				BlockSize:            256,
+				BlockRestartInterval: 4,
+				Compression:          opt.NoCompression,
+				Filter:               filter.NewBloomFilter(10),
+				FilterBaseLg:         baseLg,
+				Strict:               opt.StrictAll,
+			}
+
+			const n = 2000
+			keys := make([][]byte, n)
+			vals := make([][]byte, n)
+			buf := &bytes.Buffer{}
+			tw := table.NewWriter(buf, o, nil, 0)
+			for i := 0; i < n; i++ {
+				keys[i] = []byte(fmt.Sprintf("key%06d", i*2))
+				vals[i] = bytes.Repeat([]byte{byte('a' + i%26)}, 30+i%17)
+				if err := tw.Append(keys[i], vals[i]); err != nil {
+					t.Fatalf("Append: %v", err)
+				}
+			}
+			if err := tw.Close(); err != nil {
+				t.Fatalf("Close: %v", err)
+			}
+			if tw.BlocksLen() < 100 {
+				t.Fatalf("expected many blocks, got %d", tw.BlocksLen())
+			}
+
+			tr, err := table.NewReader(bytes.NewReader(buf.Bytes()), int64(buf.Len()), storage.FileDesc{Type: storage.TypeTable, Num: 1}, nil, nil, o)
+			if err != nil {
+				t.Fatalf("NewReader: %v", err)
+			}
+			defer tr.Release()
+
+			// Full iteration is unaffected by the filter.
+			it := tr.NewIterator(nil, nil)
+			i := 0
+			for it.Next() {
+				if i >= n || !bytes.Equal(it.Key(), keys[i]) || !bytes.Equal(it.Value(), vals[i]) {
+					t.Fatalf("iteration: entry %d mismatch: %q", i, it.Key())
+				}
+				i++
+			}
+			it.Release()
+			if err := it.Error(); err != nil || i != n {
+				t.Fatalf("iteration: got %d entries, err=%v", i, err)
+			}
+
+			// Exact lookups through the filter (what DB.Get does).
+			missing := 0
+			for i := range keys {
+				rkey, rval, err := tr.Find(keys[i], true, nil)
+				if err != nil {
+					if missing < 5 {
+						t.Errorf("Find(%q, filtered): %v", keys[i], err)
+					}
+					missing++
+					continue
+				}
+				if !bytes.Equal(rkey, keys[i]) || !bytes.Equal(rval, vals[i]) {
+					t.Errorf("Find(%q, filtered): got %q/%q", keys[i], rkey, rval)
+				}
+			}
+			if missing > 0 {
+				t.Errorf("%d of %d written keys are not found by filtered exact lookup", missing, n)
+			}
+		})
 	}
 }
